@@ -169,49 +169,61 @@ example : (run 4 Udp.init [.write [1], .close true, .write [2], .flush .ok, .clo
 
 /-! ### `multi_fanout` -/
 
-/-- when no destination fails — no socket fault is injected and no call returns an error — the
-multi-destination transport performs every write and every flush on every destination: the
-history seen at each of the `k ≥ 1` destinations is exactly the single-transport history of the
-same calls, and the whole multi-destination history satisfies the oracle (every clause at every
-destination, and `fanout-unequal`) -/
+/-- as long as no socket fault is injected — whatever else happens: refused writes, abandoned and
+discarded messages, `Close` and use after `Close` — the history seen at each of the `k ≥ 1`
+destinations is exactly the single-transport history of the same calls (every destination
+performs every write and every flush, and the caller is told that one result), and the whole
+multi-destination history satisfies the oracle: every clause at every destination, and
+`fanout-unequal` -/
 theorem multi_fanout (max k : Nat) (hk : 0 < k) (mops : List UdpMulti.MOp)
-    (hquiet : ∀ op ∈ mops, op.quiet = true)
-    (hnoerr : ∀ r ∈ (run max Udp.init (mops.map UdpMulti.MOp.single)).2, r.err = .nil) :
+    (hquiet : ∀ op ∈ mops, op.quiet = true) :
     (∀ d, d < k → (UdpMulti.trace max (UdpMulti.init k) mops).map (MEv.proj d)
         = Udp.trace max Udp.init (mops.map UdpMulti.MOp.single))
     ∧ holdsMulti max k (UdpMulti.trace max (UdpMulti.init k) mops) = true := by
-  have h := fanout max k hk mops Udp.init {} (inv_init max) hquiet hnoerr
+  have h := fanout max k hk mops Udp.init {} true (inv_init max) hquiet
   refine ⟨h.1, ?_⟩
   have h2 := h.2
   simp only [holdsMulti, checkMulti, MSt.init, UdpMulti.init] at h2 ⊢
   simp [h2]
 
+/-- with socket faults too (any oracle at any destination; `conn.Close()` itself succeeding):
+every destination still sees every write and every flush — what arrives at destination `d` is
+exactly what a transport of its own would have delivered, given all the calls and `d`'s socket
+behaviour.  So by `trace_holds` / `delivered_exactly` each sink gets only whole, exact,
+refusal-free messages, each at most once, in order, and a failing destination never makes another
+one skip, repeat or glue a message. -/
+theorem multi_every_destination (max k : Nat) (mops : List UdpMulti.MOp) (d : Nat) (hd : d < k)
+    (hclose : ∀ op ∈ mops, op.closeOk = true) :
+    (UdpMulti.trace max (UdpMulti.init k) mops).map (fun e => e.recv[d]?.getD [])
+      = (Udp.trace max Udp.init (mops.map (UdpMulti.MOp.at d))).map (·.recv) :=
+  every_destination max mops (UdpMulti.init k) d Udp.init (by simp [UdpMulti.init, hd]) hclose
+
+/-- the abandoned-message scenario through two destinations: nothing of the refused message
+arrives anywhere, the next message arrives alone at both -/
+example : (UdpMulti.trace 4 (UdpMulti.init 2) [.write [1, 2, 3], .write [4, 5], .flush [], .write [9], .flush []]).map (·.recv)
+      = [[[], []], [[], []], [[], []], [[], []], [[[9]], [[9]]]]
+    ∧ holdsMulti 4 2 (UdpMulti.trace 4 (UdpMulti.init 2) [.write [1, 2, 3], .write [4, 5], .flush [], .write [9], .flush []]) = true := by
+  decide
+
+/-- a failing destination in the middle: the others are flushed all the same, the first error is returned -/
+example : (UdpMulti.trace 4 (UdpMulti.init 3) [.write [1, 2], .flush [.ok, .fail, .ok], .write [3], .flush []]).map (fun e => (e.err, e.recv))
+      = [(.nil, [[], [], []]), (.sendError, [[[1, 2]], [], [[1, 2]]]), (.nil, [[], [], []]), (.nil, [[[3]], [[3]], [[3]]])] := by
+  decide
+
 example : (UdpMulti.trace 4 (UdpMulti.init 3) [.write [1, 2], .write [3], .flush [], .isOpen, .write [4], .flush [.ok, .ok, .ok], .close []]).map (·.recv)
     = [[[], [], []], [[], [], []], [[[1, 2, 3]], [[1, 2, 3]], [[1, 2, 3]]], [[], [], []], [[], [], []], [[[4]], [[4]], [[4]]], [[], [], []]] := by decide
 
-example : ∀ r ∈ (run 4 Udp.init ([UdpMulti.MOp.write [1, 2], .write [3], .flush [], .isOpen, .write [4], .flush [.ok, .ok, .ok], .close []].map UdpMulti.MOp.single)).2, r.err = .nil := by decide
+/-! ### Legacy witnesses: the tree before repair D9 (transport without the overflow flag,
+reporter without the discarding flush) -/
 
-/-! ### what the multi transport does *not* give, and the pinned tree's counter-examples -/
-
-/-- **open** (see the final report): with the single transport repaired but the fan-out loops
-left as they are, an oversize write through several destinations still glues messages: the first
-destination refuses and `Write` returns before the others see the chunk; the discarding `Flush`
-errors at the first destination and returns before the others are flushed; the next message
-arrives at destination 1 behind the stale prefix. -/
-theorem multi_early_return_counterexample :
-    (UdpMulti.trace 4 (UdpMulti.init 2) [.write [1, 2, 3], .write [4, 5], .flush [], .write [9], .flush []]).map (·.recv)
-      = [[[], []], [[], []], [[], []], [[], []], [[[9]], [[1, 2, 3, 9]]]]
-    ∧ holdsMulti 4 2 (UdpMulti.trace 4 (UdpMulti.init 2) [.write [1, 2, 3], .write [4, 5], .flush [], .write [9], .flush []]) = false := by
-  decide
-
-/-- the pinned transport (no poisoning), a refused write, the writer abandons, the next message:
+/-- Legacy: the transport before the repair (no overflow flag), a refused write, the writer abandons, the next message:
 one datagram made of the stale prefix followed by the new message -/
 theorem stale_bytes_counterexample :
     (tracePinned 4 Udp.init [.write [1, 2, 3], .write [4, 5], .write [9], .flush .ok]).flatMap (·.recv) = [[1, 2, 3, 9]]
     ∧ check 4 (tracePinned 4 Udp.init [.write [1, 2, 3], .write [4, 5], .write [9], .flush .ok]) = some "dirty-message-sent" := by
   decide
 
-/-- the pinned transport under the pinned reporter: once a batch overflowed, nothing is ever
+/-- Legacy: the unrepaired transport under the unrepaired reporter: once a batch overflowed, nothing is ever
 emitted again, although every later batch fits -/
 theorem reporter_stuck_counterexample :
     M3Batch.emittedPinned 4 [{ chunks := [[1, 2, 3, 4], [5]] }, { chunks := [[6]] }, { chunks := [[7], [8]] }] = []
